@@ -39,4 +39,11 @@ theorem gate_eq (h : Handler) (c : Cause) (m : Bool) :
 theorem match_has_subresource :
     Extracted.matchConjuncts.contains "_matches_subresource(handler, cause)" = true := by decide
 
+/-- `build_webhooks`: `rules[].operations = list(handler.operations or ['*'])` -/
+theorem managed_rule_ops_eq (h : Handler) : Extracted.managedRuleOps h = managedRuleOps h := by
+  unfold Extracted.managedRuleOps managedRuleOps
+  cases h.operations with
+  | none => rfl
+  | some ops => cases ops <;> rfl
+
 end Kopf.C18.Tie
